@@ -9,7 +9,7 @@ import (
 
 func init() {
 	register(&propDef{ID: "C20", Run: runC20,
-		Explain: "Structural necessary conditions of 'sending survives connection faults without loss or duplication', decided on the SSA/CFG of every Send implementation of /repo: (1) success-after-write: when every write/dispatch site of a Send function is assumed to fail (or is not executed), no return yields a nil error; (2) full-write: the payload of each connection write is exactly result 0 of msg.Bytes() (never a sub-slice or offset), obtained before the loop, and a serialisation error is returned before any write; (3) bounded-attempts: the retry loop is `for i := 0; i < K; i++` with constant K <= 2, it is the only cycle around the write, and its exhaustion ends in an error; a successful write leaves the loop with nil at once (shared with C03); (4) failure-cleanup: on the failure edge of a write the connection is closed and the cached connection field set to nil before the next attempt, so the next attempt redials; (5) dial-errors: a dial result is cached only on the success edge of the dial, a failed dial returns its error (client transport) or leaves the cache nil (backend), and a write is reachable only with a non-nil cached connection; (6) failover: the secondary is tried only when there is no primary or the primary failed, the failed primary is forgotten (set to nil) before the secondary is tried, the secondary's result is returned, and with neither an error is returned.",
+		Explain:    "Structural necessary conditions of 'sending survives connection faults without loss or duplication', decided on the SSA/CFG of every Send implementation of /repo: (1) success-after-write: when every write/dispatch site of a Send function is assumed to fail (or is not executed), no return yields a nil error; (2) full-write: the payload of each connection write is exactly result 0 of msg.Bytes() (never a sub-slice or offset), obtained before the loop, and a serialisation error is returned before any write; (3) bounded-attempts: the retry loop is `for i := 0; i < K; i++` with constant K <= 2, it is the only cycle around the write, and its exhaustion ends in an error; a successful write leaves the loop with nil at once (shared with C03); (4) failure-cleanup: on the failure edge of a write the connection is closed and the cached connection field set to nil before the next attempt, so the next attempt redials; (5) dial-errors: a dial result is cached only on the success edge of the dial, a failed dial returns its error (client transport) or leaves the cache nil (backend), and a write is reachable only with a non-nil cached connection; (6) failover: the secondary is tried only when there is no primary or the primary failed, the failed primary is forgotten (set to nil) before the secondary is tried, the secondary's result is returned, and with neither an error is returned.",
 		NotDecided: "what sockets do (partial writes, resets); trusted: net.Conn.Write returns a non-nil error when it writes fewer bytes than given."})
 }
 
@@ -234,7 +234,10 @@ func c20Dial(c *Ctx) {
 	w := c.w
 	rule := "dial-errors"
 	dialNames := []string{"net.Dial", "net.DialTCP", "net.DialTimeout", "(*net.Dialer).Dial", "(*net.Dialer).DialContext"}
-	for _, sp := range []struct{ fn, field string; returnsErr bool }{
+	for _, sp := range []struct {
+		fn, field  string
+		returnsErr bool
+	}{
 		{"(*TCPClientTransport).Send", "TCPClientTransport.conn", true},
 		{"(*TCPBackend).connect", "TCPBackend.conn", false},
 	} {
